@@ -54,6 +54,7 @@ fn visit(v: &Visit, st: &mut Stats) -> CaseResult {
             let nv = Visit { board: &nb, pos: &np, step: &Step::Null, hist: &h, origin: v.origin };
             let nl = np.legal_moves();
             st.class_if(nl.is_empty(), "after-null:no-legal-move");
+            st.class_if(!nl.is_empty() && nl.iter().all(|m| np.pinned_mask_for(np.stm.other()) & (1u64 << m.from) != 0), "after-null:only-battery-front-pieces-move");
             st.class_if(!nl.is_empty() && nl.iter().all(|m| np.pinned_mask_for(np.stm.other()) & (1u64 << m.from) != 0 || matches!(np.board[m.from as usize], Some((Kind::K, _)))), "after-null:only-king-or-battery-pieces-move");
             check_board(&nv)?;
         }
@@ -63,9 +64,9 @@ fn visit(v: &Visit, st: &mut Stats) -> CaseResult {
 
 pub fn run(ctx: &Ctx) -> Report {
     let mut rep = Report::new(ctx);
-    rep.rule = "Every position along generated histories (extra weight on mate/stalemate-net motifs and on half-move clocks 98..100 via clock setters and constructed clocks); status() is compared with: no legal move & check -> Won; no legal move & no check -> Drawn; legal move & clock >= 100 -> Drawn; else Ongoing (legal moves and check from the reference model). Non-trivial = status other than Ongoing, or clock >= 99; distinct by (FEN hash, clock).".into();
+    rep.rule = "Every position along generated histories (extra weight on mate/stalemate-net motifs and on half-move clocks 98..100 via clock setters and constructed clocks); status() is compared with: no legal move & check -> Won; no legal move & no check -> Drawn; legal move & clock >= 100 -> Drawn; else Ongoing (legal moves and check from the reference model). The null-move successor of every visited board is judged as well (with motifs where, after the pass, the only movable enemy pieces are front pieces of a battery aimed at the passer's king). Non-trivial = status other than Ongoing, or clock >= 99; distinct by (FEN hash, clock).".into();
     rep.assumptions = vec!["reference legal_moves()/in_check()".into()];
-    rep.required_classes = vec!["checkmate", "stalemate", "fifty-move-draw", "checkmate-with-clock-100", "clock-99-ongoing", "in-check-ongoing"];
+    rep.required_classes = vec!["checkmate", "stalemate", "fifty-move-draw", "checkmate-with-clock-100", "clock-99-ongoing", "in-check-ongoing", "after-null:no-legal-move", "after-null:only-battery-front-pieces-move"];
     let cases = ctx.tier.scale(200_000, 25);
     rep.add(positions(ctx, "walk", cases, (1, 3, 8), 40, visit));
     rep
